@@ -19,6 +19,14 @@ Proof.
   intros H. destruct (secp_priv_valid k) eqn:E; [|reflexivity]. apply secp_priv_valid_len in E. contradiction.
 Qed.
 
+Lemma fixed32 v : v < secp256k1_order -> exists b, int_to_be_fixed 32 v = Ok b /\ length b = 32%nat /\
+  bytes_ok b /\ be_to_int b = v.
+Proof.
+  intros H. destruct (int_to_be_fixed_fits 32 v) as [b E].
+  { pose proof c_order_lt. change (N.of_nat 32) with 32. lia. }
+  exists b. apply int_to_be_fixed_ok in E as H'. tauto.
+Qed.
+
 Lemma nth_error_last {A} (l : list A) x : nth_error (l ++ [x]) (length (l ++ [x]) - 1) = Some x.
 Proof.
   rewrite app_length. cbn [length]. replace (length l + 1 - 1)%nat with (length l) by lia.
